@@ -3,9 +3,10 @@ import WW.Proofs.HistKeys
 namespace WW.Inc
 open WW WW.Gen
 
-/-- the refund of an over-paid native flow fee (only when the flow asset is another native denom) -/
+/-- the refund of an over-paid native flow fee: always, unless the flow is opened in the fee denom itself
+    (then the attached funds must be exactly flow + fee) — the flow asset's kind does not matter -/
 def feeRefund (c : Cfg) (e : Env) (a paid : Nat) : List Msg :=
-  if (decide (c.feeAmt < paid) && c.native a && decide (a ≠ c.feeAsset)) = true
+  if (decide (c.feeAmt < paid) && !(c.native a && decide (a = c.feeAsset))) = true
   then [Msg.send INC e.sender c.feeAsset (paid - c.feeAmt)] else []
 
 theorem openFlowFee_spec {c : Cfg} {e : Env} {a amount x : Nat} {m0 : List Msg}
@@ -39,7 +40,7 @@ theorem openFlowFee_spec {c : Cfg} {e : Env} {a amount x : Nat} {m0 : List Msg}
               split at h
               · rename_i hpt
                 injection h with h; injection h with h1 h2
-                exact ⟨by omega, h2.symm, Or.inl ⟨hs2.1, hs2.2, h1.symm, by rw [← h1, hpt, ht1]⟩⟩
+                exact ⟨by omega, by simp only [feeRefund, hsame]; exact h2.symm, Or.inl ⟨hs2.1, hs2.2, h1.symm, by rw [← h1, hpt, ht1]⟩⟩
               · cases h
             · cases h
             · cases h
@@ -49,7 +50,7 @@ theorem openFlowFee_spec {c : Cfg} {e : Env} {a amount x : Nat} {m0 : List Msg}
         · cases h
         · rename_i hle
           injection h with h; injection h with h1 h2
-          exact ⟨by omega, h2.symm, Or.inr ⟨hs2, h1.symm⟩⟩
+          exact ⟨by omega, by simp only [feeRefund, hsame]; exact h2.symm, Or.inr ⟨hs2, h1.symm⟩⟩
   · rename_i hnf
     right
     have hnf' : c.native c.feeAsset = false := by simpa using hnf
